@@ -215,3 +215,131 @@ Proof.
     with true by (symmetry; apply Z.ltb_lt; lia).
   reflexivity.
 Qed.
+
+(* ------------------------------------------------------------------ arrays with a known head *)
+Lemma arr_loop_next rec lf input cnt off acc : (cnt =? 0)%N = false -> off < length input ->
+  arr_loop true rec (S lf) input cnt off acc =
+  let r := rec (skipn off input) in
+  match fst r with
+  | Done v c => tick (snd r) (arr_loop true rec lf input (cnt - 1) (off + c) (v :: acc))
+  | _ => r
+  end.
+Proof.
+  intros Hc Ho. rewrite arr_loop_S by exact Hc.
+  replace (length input <=? off) with false by (symmetry; apply Nat.leb_gt; lia).
+  replace (length input <? off) with false by (symmetry; apply Nat.ltb_ge; lia).
+  reflexivity.
+Qed.
+
+Lemma arr_loop_end rec lf input cnt off acc : (cnt =? 0)%N = false -> length input <= off ->
+  arr_loop true rec (S lf) input cnt off acc = (Incomplete, 0%N).
+Proof.
+  intros Hc Ho. rewrite arr_loop_S by exact Hc.
+  replace (length input <=? off) with true by (symmetry; apply Nat.leb_le; lia). reflexivity.
+Qed.
+
+(* the outcome of an array of [cnt] elements whose header is "*<d>\r\n" (one digit d) *)
+Lemma parse_arr_hdr d cnt rest :
+  parse_i64 [d] = Some (Z.of_N cnt) -> d <> 13%N ->
+  fst (parse_d true 32 (42%N :: d :: 13%N :: 10%N :: rest)) =
+  fst (arr_loop true (parse_d true 31) (4 + length rest) (42%N :: d :: 13%N :: 10%N :: rest) cnt 4 []).
+Proof.
+  intros Hp Hd. rewrite parse_d_eq. cbn [N.eqb Pos.eqb]. unfold parse_array. cbv zeta.
+  destruct (header_line 42%N [d] rest ltac:(discriminate) ltac:(repeat constructor; exact Hd)) as [H1 H2].
+  cbn [app length] in H1, H2. rewrite H1, H2, Hp.
+  assert (0 <= Z.of_N cnt)%Z by lia.
+  replace (Z.of_N cnt =? -1)%Z with false by (symmetry; apply Z.eqb_neq; lia).
+  replace (Z.of_N cnt <? 0)%Z with false by (symmetry; apply Z.ltb_ge; lia).
+  cbn [length]. replace (S (S (S (S (length rest)))) <? 2 + 2) with false by (symmetry; apply Nat.ltb_ge; lia).
+  rewrite fst_tick. rewrite N2Z.id. reflexivity.
+Qed.
+
+Definition on_done (o : outcome) (f : resp -> nat -> outcome) : outcome :=
+  match o with Done v c => f v c | _ => o end.
+
+(* "*2\r\n" ++ encode (RBulk nm) ++ a *)
+Lemma parse_arr2 nm a e : e = encode (RBulk nm) ->
+  size_ok ([42; 50; 13; 10]%N ++ e ++ a) ->
+  fst (parse_d true 32 ([42; 50; 13; 10]%N ++ e ++ a)) =
+  on_done (fst (parse_d true 31 a)) (fun v c => Done (RArr [RBulk nm; v]) (4 + length e + c)).
+Proof.
+  intros Hee Hs. change ([42; 50; 13; 10]%N ++ e ++ a) with (42%N :: 50%N :: 13%N :: 10%N :: e ++ a) in *.
+  rewrite (parse_arr_hdr 50%N 2%N (e ++ a)) by (reflexivity || discriminate).
+  set (b := 42%N :: 50%N :: 13%N :: 10%N :: e ++ a) in *.
+  assert (Hlb : length b = 4 + length e + length a) by (unfold b; cbn [length]; rewrite app_length; lia).
+  pose proof (encode_nonempty (RBulk nm)) as Hne. rewrite <- Hee in Hne.
+  rewrite app_length.
+  replace (4 + (length e + length a)) with (S (S (length e + length a + 2))) by lia.
+  rewrite arr_loop_next by (reflexivity || lia). cbv zeta.
+  assert (Hsk : skipn 4 b = e ++ a) by reflexivity.
+  rewrite Hsk.
+  assert (He : fst (parse_d true 31 (e ++ a)) = Done (RBulk nm) (length e)).
+  { rewrite Hee. apply encode_decode_d; [reflexivity|]. rewrite <- Hee. unfold size_ok in *. rewrite <- Hsk, skipn_length. lia. }
+  rewrite He. rewrite fst_tick.
+  destruct a as [|x a'].
+  - rewrite arr_loop_end by (reflexivity || (rewrite Hlb; cbn [length]; lia)).
+    destruct nm; reflexivity.
+  - rewrite arr_loop_next by (reflexivity || (rewrite Hlb; cbn [length]; lia)). cbv zeta.
+    assert (Hsk2 : skipn (4 + length e) b = x :: a').
+    { unfold b. change (42%N :: 50%N :: 13%N :: 10%N :: e ++ x :: a') with (([42; 50; 13; 10]%N ++ e) ++ x :: a').
+      rewrite skipn_app. replace (4 + length e) with (length ([42; 50; 13; 10]%N ++ e)) by (rewrite app_length; reflexivity).
+      rewrite skipn_all, Nat.sub_diag. reflexivity. }
+    rewrite Hsk2.
+    destruct (fst (parse_d true 31 (x :: a'))) as [v c| |k| |] eqn:E; cbn [on_done]; try exact E.
+    rewrite fst_tick. rewrite arr_loop_zero by reflexivity. reflexivity.
+Qed.
+
+Lemma skipn_app_exact {A} (p r : list A) n : n = length p -> skipn n (p ++ r) = r.
+Proof. intros ->. rewrite skipn_app, skipn_all, Nat.sub_diag. reflexivity. Qed.
+
+Lemma skipn_plus {A} (l : list A) m n : skipn n (skipn m l) = skipn (m + n) l.
+Proof.
+  revert l. induction m as [|m IH]; intros l; [reflexivity|].
+  destruct l as [|x l]; [now rewrite !skipn_nil|]. cbn [skipn Nat.add]. apply IH.
+Qed.
+
+Lemma parse_d_nil codec d : fst (parse_d codec d []) = Incomplete.
+Proof. destruct d; reflexivity. Qed.
+
+(* "*3\r\n" ++ encode (RBulk nm) ++ a *)
+Lemma parse_arr3 nm a e : e = encode (RBulk nm) ->
+  size_ok ([42; 51; 13; 10]%N ++ e ++ a) ->
+  fst (parse_d true 32 ([42; 51; 13; 10]%N ++ e ++ a)) =
+  on_done (fst (parse_d true 31 a)) (fun v c =>
+    on_done (fst (parse_d true 31 (skipn c a))) (fun w c2 =>
+      Done (RArr [RBulk nm; v; w]) (4 + length e + c + c2))).
+Proof.
+  intros Hee Hs. change ([42; 51; 13; 10]%N ++ e ++ a) with (42%N :: 51%N :: 13%N :: 10%N :: e ++ a) in *.
+  rewrite (parse_arr_hdr 51%N 3%N (e ++ a)) by (reflexivity || discriminate).
+  set (b := 42%N :: 51%N :: 13%N :: 10%N :: e ++ a) in *.
+  assert (Hlb : length b = 4 + length e + length a) by (unfold b; cbn [length]; rewrite app_length; lia).
+  pose proof (encode_nonempty (RBulk nm)) as Hne. rewrite <- Hee in Hne.
+  rewrite app_length.
+  replace (4 + (length e + length a)) with (S (S (S (length e + length a + 1)))) by lia.
+  rewrite arr_loop_next by (reflexivity || lia). cbv zeta.
+  assert (Hsk : skipn 4 b = e ++ a) by reflexivity.
+  rewrite Hsk.
+  assert (He : fst (parse_d true 31 (e ++ a)) = Done (RBulk nm) (length e)).
+  { rewrite Hee. apply encode_decode_d; [reflexivity|]. rewrite <- Hee. unfold size_ok in *. rewrite <- Hsk, skipn_length. lia. }
+  rewrite He. rewrite fst_tick.
+  destruct a as [|x a'].
+  - rewrite arr_loop_end by (reflexivity || (rewrite Hlb; cbn [length]; lia)).
+    rewrite parse_d_nil. reflexivity.
+  - rewrite arr_loop_next by (reflexivity || (rewrite Hlb; cbn [length]; lia)). cbv zeta.
+    assert (Hsk2 : skipn (4 + length e) b = x :: a').
+    { unfold b. change (42%N :: 51%N :: 13%N :: 10%N :: e ++ x :: a') with (([42; 51; 13; 10]%N ++ e) ++ x :: a').
+      apply skipn_app_exact. rewrite app_length. reflexivity. }
+    rewrite Hsk2.
+    destruct (fst (parse_d true 31 (x :: a'))) as [v c| |k| |] eqn:E; cbn [on_done]; try exact E.
+    rewrite fst_tick.
+    pose proof (parse_d_bnd true 31 _ _ _ E) as Hb.
+    assert (Hsk3 : skipn (4 + length e + c) b = skipn c (x :: a')).
+    { rewrite <- Hsk2. rewrite skipn_plus. reflexivity. }
+    destruct (Nat.eq_dec c (length (x :: a'))) as [Hc|Hc].
+    + rewrite arr_loop_end by (reflexivity || (rewrite Hlb; lia)).
+      rewrite Hc, skipn_all, parse_d_nil. reflexivity.
+    + rewrite arr_loop_next by (reflexivity || (rewrite Hlb; lia)). cbv zeta.
+      rewrite Hsk3.
+      destruct (fst (parse_d true 31 (skipn c (x :: a')))) as [w c2| |k| |] eqn:E2; cbn [on_done]; try exact E2.
+      rewrite fst_tick. rewrite arr_loop_zero by reflexivity. reflexivity.
+Qed.
